@@ -157,14 +157,7 @@ fn apply(o: Obj, c: &Value, k: usize, salt: usize) -> Result<Obj, String> {
         ("reload", Obj::Bv(AnyBv::Plain(b))) => {
             // the three optional support structures can each be skipped, whichever are present, through readers that return
             // everything asked for and through readers that return less per call
-            let bytes = to_bytes(&b);
-            for chunk in [usize::MAX, [1usize, 3, 7, 4096, 5000][salt % 5]] {
-                let mut r = crate::ser::Counting { inner: crate::ser::Chunked { inner: std::io::Cursor::new(&bytes), chunk }, count: 0 };
-                usize::load(&mut r).map_err(|e| e.to_string())?;
-                RawVector::load(&mut r).map_err(|e| e.to_string())?;
-                for k in 0..3 { serialize::skip_option(&mut r).map_err(|e| format!("skip_option over support structure {} failed: {}", k, e))?; }
-                if r.count != bytes.len() { return Err(format!("after skipping the three support structures (reads of at most {} bytes) the reader is at {} of {}", chunk, r.count, bytes.len())); }
-            }
+            conv::skip_supports(&to_bytes(&b), [1usize, 3, 7, 4096, 5000][salt % 5])?;
             Obj::Bv(AnyBv::Plain(reload(&b)?))
         },
         ("reload", Obj::Bv(AnyBv::Sparse(b))) => Obj::Bv(AnyBv::Sparse(reload(&b)?)),
